@@ -60,7 +60,7 @@ func c16Hand(r *rand.Rand, k int) (c16File, bool) {
 	if !lossy {
 		flags = 0x10
 	}
-	variant := (k / 2) % 16
+	variant := (k / 2) % 17
 	name := fmt.Sprintf("hand/%s/v%d", map[bool]string{true: "vp8", false: "vp8l"}[lossy], variant)
 	var chunks [][]byte
 	switch variant {
@@ -115,6 +115,20 @@ func c16Hand(r *rand.Rand, k int) (c16File, bool) {
 		chunks = [][]byte{vp8xChunk(0x10, w, h), chunk("ALPH", rawALPH(func(i int) byte { return byte(i) })), unk(3), chunk(id, bs)}
 	case 13: // animation flag clear, reserved VP8X bits set
 		chunks = [][]byte{vp8xChunk(flags|0x01|0x80, w, h), chunk(id, bs)}
+	case 16: // VP8 frame header with non-zero horizontal/vertical scale hints (upper 2 bits of the size fields)
+		if !lossy || len(bs) < 10 {
+			return c16File{}, false
+		}
+		bs = append([]byte{}, bs...)
+		bs[7] |= byte(1+r.Intn(3)) << 6
+		if r.Intn(2) == 0 {
+			bs[9] |= byte(1+r.Intn(3)) << 6
+		}
+		if r.Intn(2) == 0 {
+			chunks = [][]byte{chunk(id, bs)}
+		} else {
+			chunks = [][]byte{vp8xChunk(flags, w, h), chunk(id, bs)}
+		}
 	case 14: // raw ALPH one byte short / long
 		if !lossy {
 			return c16File{}, false
@@ -143,7 +157,7 @@ func runC16(c *ev.Ctx) {
 		"Demuxer and animation reader on canvas, animation flag, frame count and (animated only) loop count; distinct = (source kind/variant, codec, alpha, accepted-by set)"
 	var files []c16File
 	r := rng(c, 0)
-	for _, f := range stillCorpus(r, c.N(400, 20000), 40) {
+	for _, f := range stillCorpus(r, c.N(800, 150000), 40) {
 		own := false
 		switch f.Name[:4] {
 		case "loss", "exte", "mux-":
@@ -151,10 +165,10 @@ func runC16(c *ev.Ctx) {
 		}
 		files = append(files, c16File{Name: f.Name, Data: f.Data, OwnWriter: own})
 	}
-	for _, f := range animCorpus(r, c.N(120, 4000), 28) {
+	for _, f := range animCorpus(r, c.N(200, 30000), 28) {
 		files = append(files, c16File{Name: f.Name, Data: f.Data, OwnWriter: true})
 	}
-	nh := c.N(2400, 100000)
+	nh := c.N(6000, 1000000)
 	for k := 0; k < nh; k++ {
 		if f, ok := c16Hand(r, k); ok {
 			files = append(files, f)
@@ -210,7 +224,7 @@ func c16One(c *ev.Ctx, cs ev.Case) {
 				codec = info.Frames[0].BS.Codec
 			}
 			_, isY := dec.(*image.YCbCr)
-			c.Distinct(fmt.Sprintf("%s|%s|ycbcr=%v|%s", f.Name, codec, isY, accepted))
+			c.Distinct(fmt.Sprintf("%s|%s|ycbcr=%v|%s|%s", f.Name, codec, isY, accepted, sizeBucket(dec.Bounds().Dx(), dec.Bounds().Dy())))
 			b := dec.Bounds()
 			if cerr != nil {
 				c.Violate(cs, "decodeconfig-fails-where-decode-succeeds", attrs(), cerr.Error(), rep())
